@@ -113,7 +113,7 @@ class CallGraph:
         self.units = units or (prog.lib_units + prog.tool_units)
         self.funcs = {}
         for u in self.units:
-            for f in prog.unit_funcs(u):
+            for f in prog.unit_funcs(u, helpers=True):
                 self.funcs[(u, f.name)] = f
         self._registry()
         self.alias = {}
